@@ -247,10 +247,8 @@ func ToIRIs(it Item) (*IRIs, error) {
 		iris := i.IRIs()
 		return &iris, nil
 	case *ItemCollection:
-		iris := make(IRIs, len(*i))
-		for j, ob := range *i {
-			iris[j] = ob.GetLink()
-		}
+		// NOTE(marius): the same as for the list held by value, which knows about nil members
+		iris := i.IRIs()
 		return &iris, nil
 	default:
 		return reflectItemToType[IRIs](it)
